@@ -423,6 +423,10 @@ ORDER_TEXTS = [
     # a key expression equal to a target up to the VALUE of a placeholder is another expression
     ('SELECT i, i * %s AS v FROM #t ORDER BY i * %s, i', (1, -1)),
     ('SELECT i, j FROM #t ORDER BY i * %s DESC, j * %s', (0, 1)),
+    ('SELECT s, i * %s FROM #t ORDER BY i * %s, s', (1, -1)),
+    ('SELECT i + %s, j FROM #t WHERE i > %s ORDER BY i + %s DESC, j', (0, 0, 0)),
+    ('SELECT i % %s, i FROM #t ORDER BY i % %s, i', (2, 3)),
+    ('SELECT s, coalesce(i / %s, %s) AS c, coalesce(%s / %s, %s) AS d FROM #t ORDER BY i', (0, 7, 1, 0, Decimal('2.5'))),
     ('SELECT substr(s, 0, %s) AS p, count(*) AS n FROM #t GROUP BY substr(s, 0, %s) ORDER BY 1', (2, 1)),
     ('SELECT i + %s AS x, sum(j) AS t FROM #t GROUP BY i + %s ORDER BY 1', (1, 2)),
 ]
